@@ -615,7 +615,19 @@ def run_native(prop, n, overrides=None):
             lines = [x for x in p.stdout.strip().splitlines() if x.strip()]
             res = json.loads(lines[-1]) if lines else None
             if not isinstance(res, dict) or "ok" not in res:
-                raise ValueError("no result line: " + (p.stdout + p.stderr)[-600:])
+                # The script died.  When the exception was raised INSIDE the library (innermost traceback frame under the tree being
+                # checked) during one of the script's legitimate runs, the library failed natively: that is the observation.  A death
+                # inside the script itself is a harness error (exit 3).
+                import re as _re
+                frames = _re.findall(r'File "([^"]+)", line (\d+), in (\S+)', p.stderr)
+                repo_real = os.path.realpath(REPO) + os.sep
+                if p.returncode != 0 and frames and os.path.realpath(frames[-1][0]).startswith(repo_real):
+                    last = [ln for ln in p.stderr.strip().splitlines() if ln.strip()][-1]
+                    res = {"ok": False, "cases": None, "failures": [{
+                        "what": f"the library raised {last[:300]} at {os.path.relpath(frames[-1][0], REPO)}:{frames[-1][1]} ({frames[-1][2]}) "
+                                f"during a run of the bounded native script", "input": {"traceback_tail": p.stderr[-900:]}}]}
+                else:
+                    raise ValueError("no result line: " + (p.stdout + p.stderr)[-600:])
             ob["info"]["cases"] = res.get("cases")
             ob["solver_output"] = f"{res.get('cases')} cases run natively"
             if not res["ok"]:
